@@ -4,6 +4,8 @@ import (
 	"go/constant"
 	"go/token"
 	"go/types"
+	"math/bits"
+	"strings"
 
 	"golang.org/x/tools/go/ssa"
 )
@@ -51,12 +53,33 @@ func isSmallScalar(t types.Type) bool {
 
 // foldPure evaluates fn for constant arguments; bool results are 0/1.
 func foldPure(fn *ssa.Function, args []int64, depth int, bud *foldBudget) (int64, bool) {
-	if fn == nil || fn.Blocks == nil || depth > 6 || len(args) != len(fn.Params) {
+	rs, ok := foldPureN(fn, args, depth, bud)
+	if !ok || len(rs) != 1 || !rs[0].known {
 		return 0, false
+	}
+	return rs[0].k, true
+}
+
+// foldResult: one result of a folded call: a known scalar, the nil constant, or something the
+// folder does not evaluate (an error value built by a library call, …).
+type foldResult struct {
+	known bool
+	k     int64
+	isNil bool
+}
+
+// foldPureN is foldPure for functions with several results: values the folder cannot evaluate
+// (calls into libraries, non-scalar values) stay unknown and may be returned, but a branch on an
+// unknown value fails the fold. Floating-point constants with an integral value (0.0, 1.0) are
+// carried as that integer; floating-point arithmetic is not evaluated. math/bits.OnesCount* is
+// the population count.
+func foldPureN(fn *ssa.Function, args []int64, depth int, bud *foldBudget) ([]foldResult, bool) {
+	if fn == nil || fn.Blocks == nil || depth > 6 || len(args) != len(fn.Params) {
+		return nil, false
 	}
 	for _, p := range fn.Params {
 		if !isSmallScalar(p.Type()) {
-			return 0, false
+			return nil, false
 		}
 	}
 	env := map[ssa.Value]int64{}
@@ -78,6 +101,12 @@ func foldPure(fn *ssa.Function, args []int64, depth int, bud *foldBudget) (int64
 				if i, ok := constant.Int64Val(k.Value); ok {
 					return i, true
 				}
+			case constant.Float:
+				if iv := constant.ToInt(k.Value); iv.Kind() == constant.Int {
+					if i, ok := constant.Int64Val(iv); ok {
+						return i, true
+					}
+				}
 			}
 			return 0, false
 		}
@@ -90,12 +119,16 @@ func foldPure(fn *ssa.Function, args []int64, depth int, bud *foldBudget) (int64
 		}
 		return 0
 	}
+	isFloat := func(t types.Type) bool {
+		b, ok := t.Underlying().(*types.Basic)
+		return ok && b.Info()&types.IsFloat != 0
+	}
 	var prev *ssa.BasicBlock
 	cur := fn.Blocks[0]
 	for {
 		var next *ssa.BasicBlock
-		// φ-nodes read the values of the edge taken, simultaneously
 		phiVals := map[*ssa.Phi]int64{}
+		phiKnown := map[*ssa.Phi]bool{}
 		for _, in := range cur.Instrs {
 			p, ok := in.(*ssa.Phi)
 			if !ok {
@@ -108,38 +141,39 @@ func foldPure(fn *ssa.Function, args []int64, depth int, bud *foldBudget) (int64
 				}
 			}
 			if idx < 0 {
-				return 0, false
+				return nil, false
 			}
-			x, ok := val(p.Edges[idx])
-			if !ok {
-				return 0, false
+			if x, ok := val(p.Edges[idx]); ok {
+				phiVals[p], phiKnown[p] = x, true
+			} else {
+				phiKnown[p] = false
 			}
-			phiVals[p] = x
 		}
-		for p, x := range phiVals {
-			env[p] = x
+		for p, known := range phiKnown {
+			if known {
+				env[p] = phiVals[p]
+			} else {
+				delete(env, p)
+			}
 		}
 		for _, in := range cur.Instrs {
 			bud.steps++
 			if bud.steps > 20000 {
-				return 0, false
+				return nil, false
 			}
 			switch x := in.(type) {
-			case *ssa.Phi, *ssa.DebugRef:
 			case *ssa.BinOp:
 				a, ok1 := val(x.X)
 				b, ok2 := val(x.Y)
-				if !ok1 || !ok2 {
-					return 0, false
-				}
-				if !isSmallScalar(x.X.Type()) {
-					return 0, false
+				if !ok1 || !ok2 || !isSmallScalar(x.X.Type()) || isFloat(x.X.Type()) {
+					continue
 				}
 				var r int64
 				unsigned := false
 				if bt, ok := x.X.Type().Underlying().(*types.Basic); ok && bt.Info()&types.IsUnsigned != 0 {
 					unsigned = true
 				}
+				okOp := true
 				switch x.Op {
 				case token.ADD:
 					r = a + b
@@ -149,12 +183,12 @@ func foldPure(fn *ssa.Function, args []int64, depth int, bud *foldBudget) (int64
 					r = a * b
 				case token.QUO:
 					if b == 0 {
-						return 0, false
+						return nil, false
 					}
 					r = a / b
 				case token.REM:
 					if b == 0 {
-						return 0, false
+						return nil, false
 					}
 					r = a % b
 				case token.AND:
@@ -167,14 +201,14 @@ func foldPure(fn *ssa.Function, args []int64, depth int, bud *foldBudget) (int64
 					r = a &^ b
 				case token.SHL:
 					if b < 0 || b > 62 {
-						return 0, false
+						okOp = false
+					} else {
+						r = a << uint(b)
 					}
-					r = a << uint(b)
 				case token.SHR:
 					if b < 0 || b > 62 {
-						return 0, false
-					}
-					if unsigned {
+						okOp = false
+					} else if unsigned {
 						r = int64(uint64(a) >> uint(b))
 					} else {
 						r = a >> uint(b)
@@ -192,61 +226,67 @@ func foldPure(fn *ssa.Function, args []int64, depth int, bud *foldBudget) (int64
 				case token.GEQ:
 					r = b2i(a >= b)
 				default:
-					return 0, false
+					okOp = false
 				}
-				env[x] = wrapInt(x.Type(), r)
+				if okOp {
+					env[x] = wrapInt(x.Type(), r)
+				}
 			case *ssa.UnOp:
 				a, ok := val(x.X)
 				if !ok {
-					return 0, false
+					continue
 				}
 				switch x.Op {
 				case token.NOT:
 					env[x] = 1 - a
 				case token.SUB:
-					env[x] = wrapInt(x.Type(), -a)
+					if !isFloat(x.Type()) {
+						env[x] = wrapInt(x.Type(), -a)
+					}
 				case token.XOR:
 					env[x] = wrapInt(x.Type(), ^a)
-				default:
-					return 0, false // a load
 				}
 			case *ssa.Convert:
-				a, ok := val(x.X)
-				if !ok || !isSmallScalar(x.Type()) || !isSmallScalar(x.X.Type()) {
-					return 0, false
+				if a, ok := val(x.X); ok && isSmallScalar(x.Type()) && isSmallScalar(x.X.Type()) {
+					env[x] = wrapInt(x.Type(), a)
 				}
-				env[x] = wrapInt(x.Type(), a)
 			case *ssa.ChangeType:
-				a, ok := val(x.X)
-				if !ok {
-					return 0, false
+				if a, ok := val(x.X); ok {
+					env[x] = a
 				}
-				env[x] = a
 			case *ssa.Call:
 				callee := x.Common().StaticCallee()
 				if callee == nil || x.Common().IsInvoke() {
-					return 0, false
+					continue
 				}
 				var as []int64
+				allKnown := true
 				for _, a := range x.Common().Args {
 					v, ok := val(a)
 					if !ok {
-						return 0, false
+						allKnown = false
+						break
 					}
 					as = append(as, v)
 				}
-				if callee.Signature.Results().Len() != 1 || !isSmallScalar(callee.Signature.Results().At(0).Type()) {
-					return 0, false
+				if !allKnown {
+					continue
 				}
-				r, ok := foldPure(callee, as, depth+1, bud)
-				if !ok {
-					return 0, false
+				if callee.Pkg != nil && callee.Pkg.Pkg.Path() == "math/bits" && strings.HasPrefix(callee.Name(), "OnesCount") && len(as) == 1 {
+					env[x] = int64(bits.OnesCount64(uint64(as[0])))
+					continue
 				}
-				env[x] = r
+				if callee.Blocks == nil {
+					continue
+				}
+				rs, ok := foldPureN(callee, as, depth+1, bud)
+				if ok && len(rs) == 1 && rs[0].known {
+					env[x] = rs[0].k
+				}
 			case *ssa.If:
 				cnd, ok := val(x.Cond)
 				if !ok {
-					return 0, false
+					return nil, false
 				}
 				if cnd != 0 {
 					next = cur.Succs[0]
@@ -256,16 +296,23 @@ func foldPure(fn *ssa.Function, args []int64, depth int, bud *foldBudget) (int64
 			case *ssa.Jump:
 				next = cur.Succs[0]
 			case *ssa.Return:
-				if len(x.Results) != 1 {
-					return 0, false
+				var out []foldResult
+				for _, r := range x.Results {
+					if v, ok := val(r); ok {
+						out = append(out, foldResult{known: true, k: v})
+					} else if k, isK := r.(*ssa.Const); isK && k.IsNil() {
+						out = append(out, foldResult{isNil: true})
+					} else {
+						out = append(out, foldResult{})
+					}
 				}
-				return val(x.Results[0])
-			default:
-				return 0, false
+				return out, true
+			case *ssa.Store, *ssa.MapUpdate, *ssa.Send, *ssa.Go, *ssa.Defer, *ssa.Panic:
+				return nil, false
 			}
 		}
 		if next == nil {
-			return 0, false
+			return nil, false
 		}
 		prev, cur = cur, next
 	}
